@@ -205,24 +205,142 @@ func (c *Ctx) c12TypeRetyped() {
 }
 
 // c12OpenFinding replays the recorded, unrepaired defect: two local struct types of one name in nested blocks of one
-// function share one type object (its key is function name + type name), so the inner type keeps the fields of the
-// outer one that it does not declare
+// function share one type object (its key is function name + type name): the inner type keeps the fields of the
+// outer one that it does not declare, and an instance of the OUTER type made after the inner declaration has run
+// takes the inner declaration's zero value (and with it the type) for a field both declare
 func (c *Ctx) c12OpenFinding() {
 	const id = "shadowed-local-type-keeps-outer-fields"
-	src := "import \"fmt\"\nfunc f() {\n\ttype P struct {\n\t\tX int\n\t\tY int\n\t}\n\ta := &P{}\n\tif a.X == 0 {\n\t\ttype P struct {\n\t\t\tX int\n\t\t}\n\t\tb := &P{}\n\t\tfmt.Println(b)\n\t}\n\tc := &P{}\n\tfmt.Println(c)\n}\nf()\n"
-	out, err := runScript(src)
-	c.Rep.Oracle["open-finding-witness"]++
-	const want = "&{X:0}\n&{X:0 Y:0}\n"
-	if err == nil && out == want {
-		return
+	var seen []string
+	what := ""
+	defer func() {
+		if len(seen) > 0 {
+			c.Rep.Known = append(c.Rep.Known, id+": "+what+" ("+strings.Join(seen, "; ")+")")
+		}
+	}()
+	for _, k := range []struct{ src, want, known string }{
+		{"import \"fmt\"\nfunc f() {\n\ttype P struct {\n\t\tX int\n\t\tY int\n\t}\n\ta := &P{}\n\tif a.X == 0 {\n\t\ttype P struct {\n\t\t\tX int\n\t\t}\n\t\tb := &P{}\n\t\tfmt.Println(b)\n\t}\n\tc := &P{}\n\tfmt.Println(c)\n}\nf()\n",
+			"&{X:0}\n&{X:0 Y:0}\n", "&{X:0 Y:0}\n&{X:0 Y:0}\n"},
+		{"func f() {\n\ttype P struct {\n\t\tA int\n\t}\n\tfor i := 0; i < 2; i++ {\n\t\tp := &P{}\n\t\tp.A += 5\n\t\tprintln(p.A / 2)\n\t\tif true {\n\t\t\ttype P struct {\n\t\t\t\tA float64\n\t\t\t}\n\t\t\tq := &P{}\n\t\t\tq.A = 0.5\n\t\t}\n\t}\n}\nf()\n",
+			"2\n2\n", "2\n2.5\n"},
+	} {
+		out, err := runScript(k.src)
+		c.Rep.Oracle["open-finding-witness"]++
+		if err == nil && out == k.want {
+			continue
+		}
+		if f, ok := c.Findings[id]; ok && err == nil && out == k.known {
+			seen = append(seen, "witness prints "+strings.ReplaceAll(strings.TrimSpace(out), "\n", " / ")+", Go "+strings.ReplaceAll(strings.TrimSpace(k.want), "\n", " / "))
+			what = f.What
+			continue
+		}
+		e := ""
+		if err != nil {
+			e = " ERR " + err.Error()
+		}
+		c.Rep.Violate(Violation{Kind: "oracle", Cut: "open-finding-witness", Input: k.src, Impl: out + e, Oracle: k.want})
 	}
-	if f, ok := c.Findings[id]; ok && err == nil && out == "&{X:0 Y:0}\n&{X:0 Y:0}\n" {
-		c.Rep.Known = append(c.Rep.Known, id+": "+f.What+" (witness prints "+strings.ReplaceAll(strings.TrimSpace(out), "\n", " / ")+")")
-		return
+}
+
+// c12TypeObject: correspondence for the type object as declarations build it (Model/Struct.lean: TObj.declare,
+// TObj.sync = STRUCT, GLOBALSTRUCT -> syncFields -> addField with Lookup / Order). One history = one VM and 2..5
+// declarations of `type T struct {...}` with random subsets of six field names in random order and random field types
+// (by successive Evals, or as local types of one name in nested blocks of one function); after every declaration
+// `println(&T{})` shows the fields in Order with their zero values; the model must print the same line.
+func (c *Ctx) c12TypeObject() error {
+	if c.Model == nil {
+		return nil
 	}
-	e := ""
-	if err != nil {
-		e = " ERR " + err.Error()
+	n := 40
+	if c.Thorough() {
+		n = 1500
 	}
-	c.Rep.Violate(Violation{Kind: "oracle", Cut: "open-finding-witness", Input: src, Impl: out + e, Oracle: want})
+	r := c.RNG
+	types := []struct{ name, zero string }{{"int", "0"}, {"string", ""}, {"float64", "0"}, {"bool", "false"}, {"uint8", "0"}}
+	for it := 0; it < n; it++ {
+		nd := 2 + r.Intn(4)
+		nested := r.Intn(3) == 0
+		var decls []string
+		lines := []string{"to reset"}
+		for d := 0; d < nd; d++ {
+			perm := []int{0, 1, 2, 3, 4, 5}
+			for i := 5; i > 0; i-- {
+				j := r.Intn(i + 1)
+				perm[i], perm[j] = perm[j], perm[i]
+			}
+			nf := r.Intn(6)
+			if d == 0 {
+				nf = 1 + r.Intn(5)
+			}
+			var sb strings.Builder
+			sb.WriteString("type T struct {\n")
+			line := "to decl"
+			for _, f := range perm[:nf] {
+				t := types[r.Intn(len(types))]
+				fmt.Fprintf(&sb, "\tf%d %s\n", f, t.name)
+				line += fmt.Sprintf(" %d=%s", f, t.zero)
+			}
+			sb.WriteString("}\n")
+			decls = append(decls, sb.String())
+			lines = append(lines, line)
+		}
+		var evals []string
+		var out string
+		var err error
+		if nested {
+			var sb strings.Builder
+			sb.WriteString("func f() {\n")
+			for d, decl := range decls {
+				sb.WriteString(decl + "println(&T{})\n")
+				if d+1 < len(decls) {
+					sb.WriteString("if true {\n")
+				}
+			}
+			sb.WriteString(strings.Repeat("}\n", len(decls)-1) + "}\nf()\n")
+			evals = []string{sb.String()}
+			out, err = runScript(evals[0])
+			c.Rep.Count("typeobj-nested-blocks")
+		} else {
+			var buf bytes.Buffer
+			vm := goat.New(goat.WithStdout(&buf))
+			for _, decl := range decls {
+				src := decl + "println(&T{})\n"
+				evals = append(evals, src)
+				if _, err = vm.Eval(fstest.MapFS{}, "main", src); err != nil {
+					break
+				}
+			}
+			out = buf.String()
+			c.Rep.Count("typeobj-successive-evals")
+		}
+		impl := []string{"ok"}
+		for _, l := range strings.Split(strings.TrimRight(out, "\n"), "\n") {
+			l = strings.TrimSuffix(strings.TrimPrefix(l, "&{"), "}")
+			var items []string
+			for _, item := range strings.Split(l, " ") {
+				if name, val, ok := strings.Cut(item, ":"); ok {
+					items = append(items, strings.TrimPrefix(name, "f")+"="+val)
+				}
+			}
+			impl = append(impl, strings.Join(items, " "))
+		}
+		if err != nil {
+			impl = append(impl, "ERR "+err.Error())
+		}
+		ans, merr := c.Model.AskAll(lines)
+		if merr != nil {
+			return merr
+		}
+		c.Rep.Seen(strings.Join(lines, ";"), nd > 2)
+		for i, a := range ans {
+			c.Rep.Corr["type-object"]++
+			if i >= len(impl) || a != impl[i] {
+				c.Rep.Violate(Violation{Kind: "correspondence", Cut: "type-object", Input: map[string]any{"evals": evals, "model_lines": lines[:i+1]}, Impl: safeIdx(impl, i), Model: a})
+				break
+			}
+		}
+		if it == 0 {
+			c.Rep.Sample(map[string]any{"type_object_history": evals})
+		}
+	}
+	return nil
 }
